@@ -70,11 +70,14 @@ Proof. vm_compute. reflexivity. Qed.
 (* ---- the whole merge as a refinement (extension round) ----
    Spec.UpdateP.upd_p is the reference semantics of merging values that carry priorities: two mappings merge key by key (the result
    carries the higher priority); in every other case the older value survives iff its priority is STRICTLY higher.
-   For any number of mapping documents whose scalars and enclosing mappings carry arbitrary !force / !weak / !metadata{{priority}}
-   tags (no !del / !notnew marks, no lists; !new, !unsafe and user metadata are free), in any order of strong / normal / weak writers, Builder.flatten succeeds and the tree it
+   For any number of mapping documents whose scalars, LISTS (taken as a whole: inside a list no node carries a priority tag of its
+   own) and enclosing mappings carry arbitrary !force / !weak / !metadata{{priority}} tags (no !del / !notnew marks; !new, !unsafe and
+   user metadata are free), in any order of strong / normal / weak writers, and in which a mapping never meets a list at the same path
+   (hcompat: where they do meet, the library protects / merges single entries - outside this reference), Builder.flatten succeeds and the tree it
    builds has exactly the priority image (values AND priorities of all nodes) of the left fold of upd_p over the documents' images
    [yprio] (every node carries the priority of its outermost tagged ancestor-or-self, else the default). *)
 Theorem C03_priorities_refine : forall e c y0 ys, Forall yz (y0 :: ys) -> forallb is_YM (y0 :: ys) = true ->
+  hcompat (yprio None y0) (map (yprio None) ys) ->
   exists n, flatten e (map (load_doc c) (y0 :: ys)) = Ok n /\ perase n = fold_left upd_p (map (yprio None) ys) (yprio None y0).
 Proof. exact flatten_prio_docs. Qed.
 Print Assumptions C03_priorities_refine.
@@ -85,6 +88,7 @@ Print Assumptions C03_priorities_refine.
    before of lower-or-equal and everything after of strictly lower priority; if no document writes q, the result has nothing there *)
 Theorem C03_every_leaf_path_latest_of_highest : forall e c y0 ys q,
   Forall yz (y0 :: ys) -> forallb is_YM (y0 :: ys) = true -> q <> [] ->
+  hcompat (yprio None y0) (map (yprio None) ys) ->
   Forall (fun y => sp (yprio None y) q /\ leafy q (yprio None y)) (y0 :: ys) ->
   exists n, flatten e (map (load_doc c) (y0 :: ys)) = Ok n /\
     match flat_map (wat q) (map (yprio None) (y0 :: ys)) with
@@ -101,6 +105,7 @@ Print Assumptions C03_every_leaf_path_latest_of_highest.
 (* the same at the level of node trees (whatever built them): stages of the class NewZ - only scalars and mappings, no explicit
    delete mark, no !notnew, priorities and everything else free *)
 Theorem C03_merge_is_prioritised_update : forall e s0 sts, Forall NewZ (s0 :: sts) -> forallb is_dictk (s0 :: sts) = true ->
+  hcompat (perase s0) (map perase sts) ->
   exists n, flatten e (s0 :: sts) = Ok n /\ perase n = fold_left upd_p (map perase sts) (perase s0).
 Proof. exact flatten_prio. Qed.
 Print Assumptions C03_merge_is_prioritised_update.
@@ -118,10 +123,16 @@ Print Assumptions C03_document_prediction_sound.
 (* ... all the way to the config a user gets: merge, check for placeholders, deep copy, evaluation - the evaluated config of any
    number of prioritised mapping documents holds exactly the VALUES of the prioritised update of the documents *)
 Theorem C03_evaluated_config : forall e pe fe c y0 ys, Forall yz (y0 :: ys) -> forallb is_YM (y0 :: ys) = true ->
+  hcompat (yprio None y0) (map (yprio None) ys) ->
   exists n v st, flatten e (map (load_doc c) (y0 :: ys)) = Ok n /\ Model.Eval.config pe fe n = Ok (v, st) /\
                  EvalPlain.vplain v = pvals (fold_left upd_p (map (yprio None) ys) (yprio None y0)).
 Proof. exact docs_evaluated_config. Qed.
 Print Assumptions C03_evaluated_config.
+
+(* for documents without lists the side condition is vacuous *)
+Theorem C03_no_lists_no_side_condition : forall y0 ys, Forall ynolist (y0 :: ys) -> hcompat (yprio None y0) (map (yprio None) ys).
+Proof. exact hcompat_ynolist. Qed.
+Print Assumptions C03_no_lists_no_side_condition.
 
 (* path by path, on the specification alone: the fold of upd_p holds at q the fold of what the stages hold at q *)
 Theorem C03_update_is_pointwise : forall ds d0 q, q <> [] -> sp d0 q -> Forall (fun d => sp d q /\ pwf d) ds ->
@@ -134,13 +145,16 @@ Print Assumptions C03_update_is_pointwise.
 Example C03_refine_example :
   let F := mkT (Some 1) None None None [] in
   let W := mkT (Some (-1)) None None None [] in
-  let d1 := YM T0 [(KS 1, YM T0 [(KS 2, YS W (SInt 1))]); (KS 3, YS T0 (SInt 10))] in
-  let d2 := YM T0 [(KS 1, YM F [(KS 2, YS T0 (SInt 2)); (KS 4, YS W (SInt 7))])] in
-  let d3 := YM T0 [(KS 1, YM T0 [(KS 2, YS T0 (SInt 3))]); (KS 3, YS W (SInt 11))] in
+  let L l := YQ T0 (map (fun z => YS T0 (SInt z)) l) in
+  let d1 := YM T0 [(KS 1, YM T0 [(KS 2, YS W (SInt 1))]); (KS 3, YS T0 (SInt 10)); (KS 5, YQ W [YS T0 (SInt 1); YS T0 (SInt 2)])] in
+  let d2 := YM T0 [(KS 1, YM F [(KS 2, YS T0 (SInt 2)); (KS 4, YS W (SInt 7)); (KS 6, L [8; 9])]); (KS 5, L [3])] in
+  let d3 := YM T0 [(KS 1, YM T0 [(KS 2, YS T0 (SInt 3)); (KS 6, L [0])]); (KS 3, YS W (SInt 11)); (KS 5, YQ W [])] in
+  hcompat (yprio None d1) (map (yprio None) [d2; d3]) /\
   match flatten [] (map (load_doc (mkLC (Some true) 1)) [d1; d2; d3]) with
-  | Ok n => pvals (perase n) = PD [(KS 1, PD [(KS 2, PS (SInt 2)); (KS 4, PS (SInt 7))]); (KS 3, PS (SInt 10))]
+  | Ok n => pvals (perase n) = PD [(KS 1, PD [(KS 2, PS (SInt 2)); (KS 4, PS (SInt 7)); (KS 6, PL [PS (SInt 8); PS (SInt 9)])]);
+                                   (KS 3, PS (SInt 10)); (KS 5, PL [PS (SInt 3)])]
             /\ perase n = fold_left upd_p (map (yprio None) [d2; d3]) (yprio None d1)
-            /\ flat_map (wat [KS 1; KS 2]) (map (yprio None) [d1; d2; d3]) = [(-1, SInt 1); (1, SInt 2); (0, SInt 3)]
+            /\ flat_map (wat [KS 1; KS 2]) (map (yprio None) [d1; d2; d3]) = [(-1, AS (SInt 1)); (1, AS (SInt 2)); (0, AS (SInt 3))]
   | Err _ _ => False
   end.
 Proof. vm_compute. repeat split; reflexivity. Qed.
